@@ -126,6 +126,12 @@ func (n *nodeSim) Get(ctx context.Context, name string, opts metav1.GetOptions) 
 		return nil, apierrors.NewNotFound(nodeGR, name)
 	}
 	cp := obj.DeepCopy()
+	if l := len(cp.Spec.Taints); l > 0 {
+		// a decoded object's slices usually have spare capacity (the decoder grows them by doubling)
+		grown := make([]v1.Taint, l, l+l%3)
+		copy(grown, cp.Spec.Taints)
+		cp.Spec.Taints = grown
+	}
 	n.k.rec.record(cGetNode(name), true, rNode(protoNode(cp)))
 	return cp, nil
 }
